@@ -3,10 +3,11 @@
 # Applies a property-breaking change to a SCRATCH worktree of /repo's HEAD (never to /repo itself, so that checks
 # running elsewhere at the same time keep seeing the real tree), checks that the repository's own tests still pass,
 # and runs the checks against that worktree (VERIF_REPO); each must exit 1 with a VIOLATION line.  Evidence and
-# replays of these runs go to /var/tmp/verif_mut/results, never to /verif/evidence.  The worktree is removed.
+# replays of these runs go to /var/tmp/verif_mut_<slot>/results (MUT_SLOT=a|b|..: runs of one slot are serialised, slots run in parallel), never to /verif/evidence.  The worktree is removed.
 P=$(readlink -f "$1"); shift
 # mutant runs share one scratch directory (warm build cache): serialise them
-exec 9>/var/tmp/verif_mut.lock; flock 9
+SLOT=${MUT_SLOT:-a}
+exec 9>/var/tmp/verif_mut_$SLOT.lock; flock 9
 WT=/var/tmp/mutant_wt_$$
 git -C /repo worktree prune
 git -C /repo worktree add --detach "$WT" HEAD >/dev/null 2>&1 || { echo "mutant: cannot create worktree"; exit 2; }
@@ -16,13 +17,13 @@ rc_all=0
 if [ -z "$SKIP_BASELINE" ]; then
   /verif/bin/baseline.sh "$WT" | head -5 || { echo "mutant: BASELINE FAILS with this change (not a valid mutant)"; rc_all=3; }
 fi
-export VERIF_REPO="$WT" VERIF_SCRATCH=/var/tmp/verif_mut VERIF_RESULTS=/var/tmp/verif_mut/results
+export VERIF_REPO="$WT" VERIF_SCRATCH=/var/tmp/verif_mut_$SLOT VERIF_RESULTS=/var/tmp/verif_mut_$SLOT/results
 for prop in "$@"; do
-  /verif/bin/vcheck "$prop" --tier "${TIER:-quick}" > /var/tmp/mutant_$prop.log 2>&1
+  /verif/bin/vcheck "$prop" --tier "${TIER:-quick}" > /var/tmp/mutant_${SLOT}_$prop.log 2>&1
   rc=$?
-  nviol=$(grep -c '^VIOLATION' /var/tmp/mutant_$prop.log)
+  nviol=$(grep -c '^VIOLATION' /var/tmp/mutant_${SLOT}_$prop.log)
   echo "mutant: $(basename "$P") vs $prop -> exit $rc, $nviol VIOLATION line(s)"
-  grep -A2 '^VIOLATION' /var/tmp/mutant_$prop.log | head -6 | cut -c1-300
+  grep -A2 '^VIOLATION' /var/tmp/mutant_${SLOT}_$prop.log | head -6 | cut -c1-300
   [ $rc -eq 1 ] || rc_all=1
 done
 exit $rc_all
